@@ -362,12 +362,17 @@ func (c *Ctx) storeStateOf(v ssa.Value, depth int) string {
 // key, and is not there in a store that was pre-populated. The file system
 // handle itself (a field of file-system type) is the exception.
 func (c *Ctx) ruleStateless(rule string) {
-	what := "the operations on variables record nothing in the store / wrapper objects or in package-level variables (the state of a variable is its file)"
 	roots := c.storeRoots()
 	if len(roots) < 4 {
 		c.R.Infof(rule, "-", "roots", "-", "not decided for this shape: fewer than four operations on variables found among the exported API of the store packages")
 		return
 	}
+	c.ruleStatelessRoots(rule, roots)
+}
+
+// ruleStatelessRoots: the rule over the call cones of the given operations.
+func (c *Ctx) ruleStatelessRoots(rule string, roots []*ssa.Function) {
+	what := "the operations on variables record nothing in the store / wrapper objects or in package-level variables (the state of a variable is its file)"
 	for _, root := range roots {
 		counts := map[string]int{}
 		bad := 0
